@@ -674,7 +674,7 @@ def classify_mne_lazy(case):
 # ===========================================================================
 # 4. HRF design matrix
 
-TRS = [2.0, 1.5, 1.0, 0.72, 2.5, 3.0, 0.5]
+TRS = [2.0, 1.5, 1.0, 0.72, 2.5, 3.0, 0.5, 0.8, 1.3, 0.7, 1.1]     # (multiband TRs: not binary fractions)
 DURS = [1.0, 0.5, 2.0, 0.1, 3.5, 5.0, 10.0]
 COND_NAMES = ['b', 'a', 'face', 'House', 'c10', 'c9']
 CONF_NAMES = ['global_signal', 'csf', 'trans_x', 'rot_z']
